@@ -47,6 +47,25 @@ type vfSimNode struct {
 	ctx    context.Context
 	cancel context.CancelFunc
 	skel   *vfSkel
+	psHost host.Host // what the PubSub instance is given as its host (default: h)
+}
+
+// vfSlowStreamHost delays NewStream by a fixed virtual time: stream negotiation that takes a while, as it does when
+// the remote protocols are not known yet.
+type vfSlowStreamHost struct {
+	host.Host
+	delay time.Duration
+}
+
+func (h *vfSlowStreamHost) NewStream(ctx context.Context, p peer.ID, pids ...protocol.ID) (network.Stream, error) {
+	if h.delay > 0 {
+		select {
+		case <-time.After(h.delay):
+		case <-ctx.Done():
+			return nil, ctx.Err()
+		}
+	}
+	return h.Host.NewStream(ctx, p, pids...)
 }
 
 // newVfSim builds n full hosts with the fixed identities vfPeer(0..n-1). latMs gives the one-way latency of the
@@ -110,13 +129,17 @@ func (s *vfSim) start(i int, router string, opts ...Option) error {
 	nd.ctx, nd.cancel = context.WithCancel(context.Background())
 	all := append([]Option{WithRawTracer(nd.raw)}, opts...)
 	var err error
+	h := nd.psHost
+	if h == nil {
+		h = nd.h
+	}
 	switch router {
 	case "floodsub":
-		nd.ps, err = NewFloodSub(nd.ctx, nd.h, all...)
+		nd.ps, err = NewFloodSub(nd.ctx, h, all...)
 	case "randomsub":
-		nd.ps, err = NewRandomSub(nd.ctx, nd.h, 10, all...)
+		nd.ps, err = NewRandomSub(nd.ctx, h, 10, all...)
 	default:
-		nd.ps, err = NewGossipSub(nd.ctx, nd.h, all...)
+		nd.ps, err = NewGossipSub(nd.ctx, h, all...)
 		if err == nil {
 			nd.gs = nd.ps.rt.(*GossipSubRouter)
 		}
@@ -226,6 +249,7 @@ type vfSkel struct {
 	in      []network.Stream // streams the remote side opened to us, in order
 	inOpen  []bool
 	inFrom  []peer.ID
+	inAt    []time.Duration // when we accepted the stream
 	refuse  bool // reset new inbound streams at once
 	out     map[int]network.Stream
 	outW    map[int]msgio.WriteCloser
@@ -253,6 +277,7 @@ func (k *vfSkel) handle(st network.Stream) {
 	k.in = append(k.in, st)
 	k.inOpen = append(k.inOpen, true)
 	k.inFrom = append(k.inFrom, st.Conn().RemotePeer())
+	k.inAt = append(k.inAt, k.s.now())
 	k.mu.Unlock()
 	r := msgio.NewVarintReaderSize(st, DefaultMaxMessageSize)
 	for {
@@ -401,4 +426,14 @@ func (k *vfSkel) foldFrom(from int) (map[string]bool, int) {
 		}
 	}
 	return view, open
+}
+
+// streamAt: when the n-th inbound stream was accepted.
+func (k *vfSkel) streamAt(n int) time.Duration {
+	k.mu.Lock()
+	defer k.mu.Unlock()
+	if n < 0 || n >= len(k.inAt) {
+		return -1
+	}
+	return k.inAt[n]
 }
